@@ -270,6 +270,76 @@ def choose_tags(rng, pool):
     TAGS = ['t%d', 'tag %d', 'x%d_re', 'K%d', 'y%d']
     return {(rng.choice(TAGS) % i): n for i, n in enumerate(chosen)}
 
+# ------------------------------------------------------------------ a writer session that writes several archives
+def state_change(rng, pool, tags, log):
+    """one change of the writing session's state BETWEEN two writes: a correlation declared or re-declared (between
+    infinite-dof dependent inputs, inside an ensemble, between the parts of a complex), an ensemble extended (what the
+    type-A predictions do), a label given by result(), a new declared result (possibly tagged for the later archive)"""
+    from GTC import core, lib
+    allp = [p for o in pool.values() for p in parts(o)]
+    elem = [p for p in allp if p.is_elementary]
+    kind = rng.choice(['corr', 'corr', 'corr_ens', 'ens_ext', 'relabel', 'newres', 'newres'])
+    try:
+        if kind == 'corr':
+            dep = [p for p in elem if not p._node.independent and math.isinf(p._node.df)]
+            if len(dep) < 2: return
+            a, b = rng.sample(dep, 2)
+            r = rng.choice([0.5, -0.3, 0.25, -0.7, 0.1])
+            core.set_correlation(r, a, b); log.append(['corr', repr(a.uid), repr(b.uid), r])
+        elif kind == 'corr_ens':
+            byuid = {p.uid: p for p in elem}
+            ens = [p for p in elem if not p._node.independent and len(p._node.ensemble) > 1]
+            if not ens: return
+            a = rng.choice(ens)
+            others = [byuid[u] for u in a._node.ensemble if u != a.uid and u in byuid]
+            if not others: return
+            b = rng.choice(others); r = rng.choice([0.6, -0.25, 0.35])
+            core.set_correlation(r, a, b); log.append(['corr_ens', repr(a.uid), repr(b.uid), r])
+        elif kind == 'ens_ext':
+            ens = [p for p in elem if not p._node.independent and len(p._node.ensemble) > 1 and not hasattr(p._node, 'complex')]
+            if not ens: return
+            a = rng.choice(ens)
+            x = core.ureal(rng.choice([0.75, -1.5, 4.0]), rng.choice([0.2, 0.05]), a._node.df, label=rng.choice([None, 'pred']), independent=False)
+            lib.append_real_ensemble(a, x)
+            if rng.random() < 0.7: core.set_correlation(rng.choice([0.45, -0.2]), a, x)
+            name = 'x%d' % len(pool); pool[name] = x
+            tags['e%d' % len(tags)] = name
+            log.append(['ens_ext', repr(a.uid), repr(x.uid)])
+        elif kind == 'relabel':
+            un = [p for p in elem if p._node.label is None and not hasattr(p._node, 'complex')]
+            if not un: return
+            a = rng.choice(un); core.result(a, label='rl'); log.append(['relabel', repr(a.uid), repr(a._node.label)])
+        else:
+            if not allp: return
+            a = rng.choice(allp); b = rng.choice(allp); c = rng.choice(allp)
+            e = rng.choice([lambda: a * b + c, lambda: a - 2.0 * b, lambda: (a + c) * 1.5 + b])()
+            if isinstance(e, lib.UncertainReal) and not e.is_elementary and not e.is_intermediate and (len(e._u_components) + len(e._d_components)):
+                m = core.result(e, label=rng.choice(LABELS))
+                name = 'n%d' % len(pool); pool[name] = m
+                if rng.random() < 0.6: tags['n%d' % len(tags)] = name
+                log.append(['newres', name])
+    except Exception as ex:
+        log.append([kind, 'EXC:' + type(ex).__name__])
+
+def prior_writes(rng, pool, tags, observe_seed=None):
+    """earlier archives of the same / overlapping numbers, written (and frozen) BEFORE the archive under test, with state
+    changes after each write.  Returns (log, priors); priors = [(fmt, via, document, tags, observations at ITS write time, flags)].
+    May add numbers to pool and tags (new results / ensemble members destined for the later archive)."""
+    log = []; priors = []
+    for w in range(rng.randint(1, 2)):
+        names = list(pool); rng.shuffle(names)
+        sub = {'p%d_%d' % (w, i): n for i, n in enumerate(names[:rng.randint(1, min(4, len(names)))])}
+        if rng.random() < 0.8:
+            sub['p%d_o' % w] = rng.choice(list(tags.values()))          # overlap with the later archive
+        fmt = rng.choice(FORMATS); via = rng.choice(['string', 'file'])
+        doc = dump_with(fmt, make_archive(sub, pool), via)
+        snap = observe({t: pool[n] for t, n in sub.items()}, observe_seed) if observe_seed is not None else None
+        priors.append((fmt, via, doc, dict(sub), snap, archive_flags(sub, pool)))
+        log.append(['write', fmt, sorted(sub.values())])
+        for _ in range(rng.randint(1, 3)):
+            state_change(rng, pool, tags, log)
+    return log, priors
+
 # ------------------------------------------------------------------ storage functions
 FORMATS = ['pickle', 'json', 'xml']
 
